@@ -3,8 +3,6 @@ package main
 // gen.go: case generators. A case is a pure function of (seed, index).
 
 import (
-	"os"
-
 	"verifharness/vkit"
 )
 
@@ -463,11 +461,7 @@ func genCase(r *vkit.Run, idx int) *caseSpec {
 	if g.Chance(1, 5) {
 		c.Transport = "tcp"
 	}
-	x := g.Intn(100)
-	if k := os.Getenv("VSPDY_KIND"); k != "" { // development only
-		x = map[string]int{"upload": 0, "stall": 30, "download": 40, "rules": 70, "chaos": 90}[k]
-	}
-	switch {
+	switch x := g.Intn(100); {
 	case x < 28:
 		genUpload(g, c)
 	case x < 36:
